@@ -22,7 +22,7 @@ ASSUMPTIONS = ["indefinite-length arrays with 2^31 or more elements overflow the
 
 def generate(tier, rng):
     w = dg.get_world(tier, rng)
-    return dg.drt_cases(w, rng, tier) + dg.ddec_cases(w, rng, tier)
+    return dg.drt_cases(w, rng, tier) + dg.ddec_cases(w, rng, tier) + dg.neg_cases()
 
 def nontrivial(line, impl): return len(impl) > 12
 def classify(line, impl):
